@@ -698,11 +698,15 @@ def r2(cx):
 # `opt.is_some_and(|x| p(x))` is `match opt { Some(x) => p(x), None => false }`: the rules about first_word_is_keyword (R3, R3b,
 # R5) decide clauses about WHICH tests stand between the words of the command and the answer, so they must read the same CFG
 # whether a test is written as a `let .. else`, as a private helper, or as a closure handed to one of the std predicates below.
-_ADAPTERS = re.compile(r'^core::(?:option::Option::<T>|result::Result::<T, E>)::(is_some_and|is_none_or|is_ok_and|is_err_and|map_or)$')
+_ADAPTERS = re.compile(r'^core::(?:option::Option::<T>|result::Result::<T, E>)::(is_some_and|is_none_or|is_ok_and|is_err_and|map_or|and_then|map)$')
+# `opt.and_then(|x| f(x))` is `match opt { Some(x) => f(x), None => None }`, `opt.map(|x| f(x))` is `match opt { Some(x) => Some(f(x)),
+# None => None }`: the answer for the other variant is the aggregate `None` (marker _NONE), `map` re-wraps the closure's result.
+_NONE = object()
 # adapter -> (variant whose payload is given to the closure, index of the closure operand, answer for the other variant)
 _ADAPTER_SHAPE = {
     ('option', 'is_some_and'): ('Some', 1, 'false'), ('option', 'is_none_or'): ('Some', 1, 'true'),
     ('option', 'map_or'): ('Some', 2, None),
+    ('option', 'and_then'): ('Some', 1, _NONE), ('option', 'map'): ('Some', 1, _NONE),
     ('result', 'is_ok_and'): ('Ok', 1, 'false'), ('result', 'is_err_and'): ('Err', 1, 'false'),
     ('result', 'map_or'): ('Ok', 2, None),
 }
@@ -733,31 +737,45 @@ def _expand_adapters(F, body, max_blocks=120):
             continue
         if not ('cp' in t['a'][0] or 'mv' in t['a'][0]):
             continue
-        todo.append((i, t, cb, shape))
+        todo.append((i, t, cb, shape + (m.group(1) == 'map',)))
     if not todo:
         return body
     d = copy.deepcopy(body.d)
-    for i, t, cb, (variant, ci, other) in todo:
+    for i, t, cb, (variant, ci, other, rewrap) in todo:
         line = t.get('line')
         subject = len(d['locals'])
         d['locals'].append({'ty': (t.get('at') or ['?'])[0]})
         tag = len(d['locals'])
         d['locals'].append({'ty': 'isize'})
+        ret_to, ret_dest = t['to'], t['dest']
+        if rewrap:
+            # the closure answers into a fresh local; one more block wraps it: dest = Some(answer)
+            ret_dest = {'l': len(d['locals'])}
+            d['locals'].append({'ty': cb.locals[0].get('ty', '?')})
         L = len(d['locals'])
         d['locals'].extend(copy.deepcopy(cb.locals))
         b_other = len(d['blocks'])
-        b_call = b_other + 1
-        B = b_other + 2
-        d['blocks'].append({'s': [{'k': 'assign', 'lhs': t['dest'], 'line': line,
-                                   'rv': {'k': 'use', 'o': {'c': other, 'ty': 'bool'} if other is not None else t['a'][1]}}],
+        if other is _NONE:
+            other_rv = {'k': 'agg', 'ak': 'adt', 'adt': 'core::option::Option', 'variant': 'None', 'ops': []}
+        else:
+            other_rv = {'k': 'use', 'o': {'c': other, 'ty': 'bool'} if other is not None else t['a'][1]}
+        d['blocks'].append({'s': [{'k': 'assign', 'lhs': t['dest'], 'line': line, 'rv': other_rv}],
                             't': {'k': 'goto', 'to': t['to'], 'line': line}})
+        if rewrap:
+            ret_to = len(d['blocks'])
+            d['blocks'].append({'s': [{'k': 'assign', 'lhs': t['dest'], 'line': line,
+                                       'rv': {'k': 'agg', 'ak': 'adt', 'adt': 'core::option::Option', 'variant': 'Some',
+                                              'ops': [{'mv': ret_dest}]}}],
+                                't': {'k': 'goto', 'to': t['to'], 'line': line}})
+        b_call = len(d['blocks'])
+        B = b_call + 1
         d['blocks'].append({'s': [{'k': 'assign', 'lhs': {'l': L + 1}, 'rv': {'k': 'use', 'o': t['a'][ci]}, 'line': line},
                                   {'k': 'assign', 'lhs': {'l': L + 2}, 'line': line,
                                    'rv': {'k': 'use', 'o': {'mv': {'l': subject, 'p': [{'v': variant}, {'f': '0'}]}}}}],
                             't': {'k': 'goto', 'to': B, 'line': line, 'inlined': cb.fn}})
         cfile = cb.file if cb.file != body.file else None
         for blk in cb.blocks:
-            d['blocks'].append(_facts._shift_block(blk, L, B, t['to'], t['dest'], cfile))
+            d['blocks'].append(_facts._shift_block(blk, L, B, ret_to, ret_dest, cfile))
         head = d['blocks'][i]
         head['s'].append({'k': 'assign', 'lhs': {'l': subject}, 'rv': {'k': 'use', 'o': t['a'][0]}, 'line': line})
         head['s'].append({'k': 'assign', 'lhs': {'l': tag}, 'line': line,
@@ -765,7 +783,7 @@ def _expand_adapters(F, body, max_blocks=120):
         head['t'] = {'k': 'switch', 'd': {'mv': {'l': tag}}, 'dty': 'isize', 'line': line,
                      'ts': [[_ADAPTER_VARIANT_INDEX[variant], b_call]], 'else': b_other, 'adapter': t['f'].get('def') or t['f'].get('decl')}
     nb = _facts.Body(d, body.crate)
-    nb.inlined_from = list(getattr(body, 'inlined_from', [])) + [cb.fn for _, _, cb, _ in todo]
+    nb.inlined_from = list(getattr(body, 'inlined_from', [])) + [x[2].fn for x in todo]
     return nb
 
 
@@ -1217,6 +1235,15 @@ def _r3b_justified_edges(cx, F, b, du, words, covered_residuals=None):
         if not srcs:
             return False
         for kind, blk, node in srcs:
+            if kind == 'other' and blk is not None and covered_residuals is not None and blk in covered_residuals and \
+                    node.get('k') == 'assign' and not node['lhs'].get('p') and _r10_wrapper(node['rv']) == []:
+                # the `None` that `opt.and_then(..)` / `opt.map(..)` / `x?` hands on for an absent first word: written in a block
+                # that is only reached through a justifying edge
+                continue
+            if kind == 'other' and node.get('k') == 'assign' and not node['lhs'].get('p') and node['rv'].get('k') == 'agg' and \
+                    node['rv'].get('adt') == 'core::option::Option' and node['rv'].get('variant') == 'Some':
+                # `Some(..)` (what `opt.map(..)` re-wraps its closure's answer in) never takes the None edge
+                continue
             if kind != 'call':
                 return False
             dty = (node.get('dty') or '').lstrip('&')
@@ -1346,9 +1373,17 @@ def _r3b_decide(cx, F, fns):
     cx.site('first_word_is_keyword: %d constant-false results; longest keyword has %d characters' % (len(falses), maxlen))
     # edges that justify the answer `false`; a `?` that hands an absent first word on is justified by the edge it was reached through
     strict, _ = _r3b_justified_edges(cx, F, b, du, words)
-    open_blocks = b.reachable(0, removed_edges=strict)
-    residuals = {blk for blk, t in b.calls() if Q.callee_is(t, Q.FROM_RESIDUAL) and blk not in open_blocks}
-    just, notes = _r3b_justified_edges(cx, F, b, du, words, covered_residuals=residuals)
+    # .. and so is the `None` an Option adapter (`and_then`, `map`) hands on; a chain of them is followed to a fixpoint
+    just, notes, residuals = strict, {}, None
+    for _ in range(6):
+        open_blocks = b.reachable(0, removed_edges=just)
+        covered = {blk for blk, t in b.calls() if Q.callee_is(t, Q.FROM_RESIDUAL) and blk not in open_blocks}
+        covered |= {blk for blk, j, s in b.stmts() if s['k'] == 'assign' and not s['lhs'].get('p') and _r10_wrapper(s['rv']) == []
+                    and blk not in open_blocks}
+        if covered == residuals:
+            break
+        residuals = covered
+        just, notes = _r3b_justified_edges(cx, F, b, du, words, covered_residuals=residuals)
     cx.site('first_word_is_keyword: %d switch edge(s) justify the answer `false` (first word missing / not a literal, keyword table '
             'said no, length no keyword has)' % len(just))
     before = b.reachable(0, removed_edges=just)
@@ -2233,6 +2268,26 @@ def _r10_literal_of(body, t):
     return [('other', 'the literal of a %s, not of the whole word' % self_ty.split('::')[-1], t)]
 
 
+_R10_PRODUCING = re.compile(r'^core::(?:option::Option::<T>|result::Result::<T, E>)::(map|and_then|map_or|map_or_else|or_else|unwrap_or_else)$')
+_R10_KEEPING = [re.compile(r'^core::option::Option::<T>::(filter|take_if)$')]
+
+
+def _r10_callable(F, body, du, operand, hops, seen):
+    """What the closure / function handed to an Option / Result adapter answers."""
+    org = du.origin(operand)
+    cb = None
+    if org['k'] == 'agg' and org['rv'].get('ak') == 'closure':
+        cb = F.bodies.get(org['rv'].get('def'))
+    elif org['k'] == 'const' and org['o'].get('fn'):
+        fn = org['o']['fn']
+        if _R10_MAYBE.search(fn):
+            return [('unknown', 'MaybeLiteral::%s handed on as a function (receiver type not traced)' % fn.split('::')[-1], None)]
+        cb = F.bodies.get(fn) if fn.startswith('yash_syntax::') else None
+    if cb is None or cb.d.get('coroutine') or (cb.fn, 0) in seen:
+        return [('unknown', 'the answer of a function handed to an Option/Result adapter', None)]
+    return _r10_sources(F, cb, Q.DefUse(cb), {'cp': {'l': 0}}, 40, hops, seen)
+
+
 def _r10_call(F, body, du, t, depth, hops, seen):
     if any(_R10_MAYBE.search(n) for n in Q.callee_names(t)):
         return _r10_literal_of(body, t)
@@ -2244,6 +2299,21 @@ def _r10_call(F, body, du, t, depth, hops, seen):
         return _r10_sources(F, body, du, t['a'][0], depth, hops, seen)
     if Q.callee_is(t, Q.FROM_RESIDUAL):
         return []                                  # `?` handing on an absent value: no text
+    m = _R10_PRODUCING.match(t['f'].get('def') or t['f'].get('decl') or '')
+    if m and len(t['a']) >= 2:
+        # `opt.and_then(|w| w.to_string_if_literal())` / `.map(..)`: the text is what the closure answers (its parameter is traced
+        # back to the receiver by _r10_from_caller); `map_or(default, f)` / `.or_else(f)` / `.unwrap_or_else(f)` may also hand on
+        # the default / the receiver
+        out = []
+        if m.group(1) in ('or_else', 'unwrap_or_else'):
+            out.extend(_r10_sources(F, body, du, t['a'][0], depth, hops, seen))
+        if m.group(1) in ('map_or', 'map_or_else'):
+            out.extend(_r10_callable(F, body, du, t['a'][1], hops, seen) if m.group(1) == 'map_or_else'
+                       else _r10_sources(F, body, du, t['a'][1], depth, hops, seen))
+        out.extend(_r10_callable(F, body, du, t['a'][-1], hops, seen))
+        return out
+    if Q.callee_is(t, _R10_KEEPING) and t['a']:
+        return _r10_sources(F, body, du, t['a'][0], depth, hops, seen)
     d = t['f'].get('def') or ''
     cb = F.bodies.get(d)
     if cb is not None and d.startswith('yash_syntax::') and not F.is_async(d) and hops > 0 and (d, 0) not in seen:
